@@ -3758,6 +3758,107 @@ def c16_lexer_eof(env, ob):
     return result(ob, "discharged", **kw)
 
 
+@obligation(id="C16.like_matcher_makes_progress", also="C05", funcs="BlobRef::match_pattern",
+            bounds="ONE round of the matching loop from its head, in ANY state of its five locals with backtrack_data_idx <= "
+                   "data_idx <= |data| (the loop's own invariant, re-established by the round: checked), any data and "
+                   "pattern of any length; ranking function (backtrack_data_idx, data_idx + pattern_idx), "
+                   "lexicographic, bounded by (|data|, |data| + |pattern|)",
+            native="c16_like_returns")
+def c16_like_progress(env, ob):
+    """LIKE runs inside the worker with a client-chosen pattern: a loop round that does not move forward is a statement
+    that never returns.  Termination by a ranking function, decided for every state at once: each round that comes back
+    to the head either raises backtrack_data_idx, or keeps it and raises data_idx + pattern_idx; both are bounded."""
+    f = env.mir.find("types/blob.rs", "match_pattern")
+    dbg = {k: v for k, v in f.debug.items()}
+    need = ["data_idx", "pattern_idx", "backtrack_data_idx", "backtrack_pattern_idx", "in_escape"]
+    if any(n not in dbg or not re.match(r"^_\d+$", dbg[n]) for n in need):
+        return result(ob, "inconclusive", reason="locals of match_pattern not found: " + repr(dbg)[:200])
+    heads = sorted(loop_heads(f), key=lambda b: int(b[2:]))
+    if not heads:
+        return result(ob, "inconclusive", reason="vacuity: no loop in match_pattern")
+    head = heads[0]
+    ctx = mirsmt.Ctx()
+    pre = {n: ctx.declare("pre_" + n, "bool" if n == "in_escape" else "usize") for n in need}
+    args = [ctx.sym("data", f.params[0][1]), ctx.sym("pattern", f.params[1][1])]
+    ex = mirsmt.Executor(env.mir, ctx, models=dict(COMMON_MODELS), loop_bound=2, max_paths=20000)
+    ex._elem_hint = "u8"
+    try:
+        res = ex.run(f, args, start_bb=head, stop_bbs=heads, init={dbg[n]: pre[n] for n in need})
+        # the loops after the matching loop (trailing %): each round raises pattern_idx
+        tails = []
+        for h2 in heads[1:]:
+            ctx2 = mirsmt.Ctx()
+            p2 = ctx2.declare("pre_pattern_idx", "usize")
+            ex2 = mirsmt.Executor(env.mir, ctx2, models=dict(COMMON_MODELS), loop_bound=2, max_paths=2000)
+            ex2._elem_hint = "u8"
+            r2 = ex2.run(f, [ctx2.sym("data", f.params[0][1]), ctx2.sym("pattern", f.params[1][1])], start_bb=h2, stop_bbs=[h2],
+                         init={dbg["pattern_idx"]: p2})
+            tails.append((h2, ctx2, p2, r2))
+    except Unsupported as e:
+        return result(ob, "inconclusive", reason=str(e)[:200])
+    tail_bad, tail_q = [], 0
+    for h2, ctx2, p2, r2 in tails:
+        q2 = []
+        for path, rv in r2:
+            if path.cut:
+                return result(ob, "inconclusive", reason="inner loop not closed within the bound: " + path.cut)
+            if path.stopped:
+                v = path.final_frame.cells[dbg["pattern_idx"]].val
+                q2.append(conj([f"(bvult {p2.term} {bvconst(1 << 60, 64)})"] + path.pc + [f"(not (bvugt {v.term} {p2.term}))"]))
+        if q2:
+            c2 = env.check(ctx2, [disj(q2)])
+            tail_q += 1
+            if c2[0]["verdict"] == "sat":
+                tail_bad.append(f"round_without_progress[{h2}]")
+            elif c2[0]["verdict"] != "unsat":
+                return result(ob, "inconclusive", reason="solver: " + c2[0]["verdict"])
+    # |data| as the loop condition reads it
+    dlen = getattr(args[0].cell, "len_sym", None) if isinstance(args[0], Ref) else None
+    if dlen is None:
+        return result(ob, "inconclusive", reason="the loop head does not read data.len() through the parameter")
+    big = bvconst(1 << 60, 64)
+    inv = [f"(bvule {pre['backtrack_data_idx'].term} {pre['data_idx'].term})", f"(bvule {pre['data_idx'].term} {dlen.term})",
+           f"(bvult {dlen.term} {big})", f"(bvult {pre['pattern_idx'].term} {big})"]
+    back, qs, labels, leaves = 0, [], [], 0
+    for path, rv in res:
+        if path.cut:
+            return result(ob, "inconclusive", reason="inner loop not closed within the bound: " + path.cut)
+        if path.stopped != head:
+            leaves += 1
+            if path.panics:
+                # an arithmetic / index panic inside the round kills the worker just the same
+                qs.append(conj(inv + path.pc))
+                labels.append("round_panics")
+            continue
+        back += 1
+        fr = path.final_frame
+        post = {n: fr.cells[dbg[n]].val for n in need}
+        d0, p0, b0 = pre["data_idx"].term, pre["pattern_idx"].term, pre["backtrack_data_idx"].term
+        d1, p1, b1 = post["data_idx"].term, post["pattern_idx"].term, post["backtrack_data_idx"].term
+        up = f"(or (bvugt {b1} {b0}) (and (= {b1} {b0}) (bvugt (bvadd {d1} {p1}) (bvadd {d0} {p0}))))"
+        keeps = f"(and (bvule {b1} {d1}) (bvule {d1} {dlen.term}))"
+        qs.append(conj(inv + path.pc + [f"(not {up})"]))
+        labels.append("round_without_progress")
+        qs.append(conj(inv + path.pc + [f"(not {keeps})"]))
+        labels.append("round_breaks_the_loop_invariant")
+    if back < 5 or not leaves:
+        return result(ob, "inconclusive", reason=f"vacuity: {back} rounds come back to the head, {leaves} leave", paths=len(res))
+    wit = env.check(ctx, [disj([conj(inv + p.pc) for p, rv in res if p.stopped == head])])
+    if wit[0]["verdict"] != "sat":
+        return result(ob, "inconclusive", reason="vacuity: no feasible round under the invariant", paths=len(res))
+    chk = env.check(ctx, qs)
+    failed = sorted({lab for lab, c in zip(labels, chk) if c["verdict"] == "sat"} | set(tail_bad))
+    unk = [c["verdict"] for c in chk if c["verdict"] not in ("sat", "unsat")]
+    kw = dict(paths=len(res), queries=len(chk) + 1 + tail_q, events={"rounds_back_to_head": back, "rounds_leaving": leaves,
+                                                                      "loops": len(heads)})
+    if failed:
+        model = next((c.get("model") for lab, c in zip(labels, chk) if c["verdict"] == "sat"), None)
+        return result(ob, "violated", failed=failed, cex={"what": "a state of the matching loop from which one round does not advance", "model": model}, **kw)
+    if unk:
+        return result(ob, "inconclusive", reason="solver: " + ",".join(unk[:3]), **kw)
+    return result(ob, "discharged", **kw)
+
+
 # ---------------------------------------------------------------------------------------------------------------------
 # C05: operator precedence of the Pratt parser (constants and the loop condition are extracted from the real MIR)
 # ---------------------------------------------------------------------------------------------------------------------
